@@ -36,7 +36,9 @@ SPEC = dict(
             "all {-1,0,1} matrices with m in {2,3} rows and n <= 3 columns except 3x3, where MGDA/CAGrad (4-11 ms per call) and "
             "all others run on the orbits of the structural sublist (smallest member of each class under row/column permutation "
             "and column sign flips); Near family; D(seed) and the full-rank family dense2(seed) for m = 4 (all 24 permutations), "
-            "2 matrices each per shape; all of S_m"
+            "2 matrices each per shape; all of S_m; special families: IMTL-G on all {-1,0,1,2} 4x2 and on every exactly stationary "
+            "{-1,0,1} matrix (both dtypes, 3 scales), trimmed mean with huge cancelling rows, tall float32 Krum, native-seed GradDrop, instance re-use after a null row, "
+            "rows of one buffer re-ordered in place (15 configurations x 24 orders), ConFIG null direction with preference magnitudes 1e-5..1e5"
         ),
         thorough="all {-1,0,1} matrices with m in {2,3}, n <= 3; Near; both dense families, 8 matrices per shape, m in {2,3,4,5}, n in {2,3,4}: all 120 permutations for m = 5",
     ),
